@@ -72,6 +72,14 @@ fn witnesses() -> Vec<Case> {
             vec![vec![Cmd::Drop("t1".into())], vec![Cmd::Compact]],
             vec![(2, "cp.pinned"), (1, "vm.commit.begin"), (2, "end"), (1, "end")],
         ),
+        // two sessions DROP the same table: both are bound before either applies; the second one's
+        // executors are built for a table that is gone (`Builder::new` unwraps the catalog entry)
+        case(
+            "w-drop-drop",
+            vec![Cmd::Create("t1".into()), Cmd::Insert("t1".into(), vec![1])],
+            vec![vec![Cmd::Drop("t1".into())], vec![Cmd::Drop("t1".into())]],
+            vec![(1, "db.bound"), (2, "db.bound"), (1, "end"), (2, "end")],
+        ),
         // purely sequential: DELETE, compaction, DROP, reopen
         case(
             "w-seq-dv-compact-drop",
